@@ -32,7 +32,7 @@ struct Shared {
 }
 
 /// scheduler state letter of a thread of this process (R running, S sleeping, D disk sleep, ...)
-fn solo_state(ktid: u64) -> Option<char> {
+pub fn solo_state(ktid: u64) -> Option<char> {
     if ktid == 0 {
         return None;
     }
